@@ -309,6 +309,21 @@ def _execute(c, s, n_jobs, seen):
                 break
         if bad is not None:
             _viol(c, s, "routing", ("output", meth, "fallback" if bad[0] == -1 else "bucket", "labels=" + s.ltype if meth == "predict" else ""), "%s: rows %r of bucket %d got %r, their model gives %r" % (meth, bad[1], bad[0], bad[2], bad[3]), seen)
+        # rows of unseen cells alone in their batch: still the fallback model
+        if n_unseen and bad is None:
+            urows = numpy.where(exp_arr == -1)[0]
+            for sub in (urows[:1], urows):
+                ok2, r2 = U.sut(c, meth + "(unseen-only)", getattr(model, meth), Xq[sub])
+                if not ok2:
+                    _viol(c, s, "raised", (meth, type(r2).__name__, U.where_raised(r2), "unseen-only-batch"), "%s raised %s on a batch made of rows of unseen cells only" % (meth, U.short_exc(r2)), seen)
+                    break
+                want2 = numpy.asarray(getattr(model.mean_estimator_, meth)(Xq[sub]))
+                r2 = numpy.asarray(r2)
+                same2 = r2.shape == want2.shape and (bool(numpy.all(r2 == want2)) if (meth == "predict" and s.kind == "clf") else U.arrays_equal(r2, want2))
+                if not same2:
+                    _viol(c, s, "routing", ("output", meth, "fallback", "unseen-only-batch"), "%s on a batch made only of rows of unseen cells (%d rows) does not return the fallback model's output" % (meth, len(sub)), seen)
+                    break
+            c.probe("unseen_only_batch_checked")
         # ---- (f) distributions / labels
         if meth == "predict_proba":
             k = len(model.classes_)
